@@ -209,7 +209,8 @@ Fixpoint crun (m : cmap) (tr : list cop) : cmap * list cmap :=
       (mf, match o with OpExport => m :: snaps | _ => snaps end)
   end.
 
-Definition total (k : ckey) (tr : list cop) : Z := fold_right (fun o a => (op_delta k o + a)%Z) 0%Z tr.
+Fixpoint total (k : ckey) (tr : list cop) : Z :=
+  match tr with [] => 0%Z | o :: tr' => (op_delta k o + total k tr')%Z end.
 
 (* tr is an interleaving of the per-goroutine programs ths *)
 Inductive interleaving : list (list cop) -> list cop -> Prop :=
